@@ -4,7 +4,7 @@ meta[k].json) with what the evaluation (vp/seed_eval.sh -> /var/tmp/seedeval/Cxx
 import json, re, shutil, sys
 from pathlib import Path
 pid = sys.argv[1]
-k = sys.argv[2] if len(sys.argv) > 2 and sys.argv[2] not in ("", "1") else ""
+k = sys.argv[2] if len(sys.argv) > 2 and sys.argv[2] not in ("", "1", "-") else ""
 src = Path(f"/tmp/seed/{pid}.out")
 dst = Path(f"/verif/seeded/{pid}")
 dst.mkdir(parents=True, exist_ok=True)
@@ -26,5 +26,13 @@ if t:
 meta.setdefault("tests_confirmed", "full suite reported by the seeding agent (see tests_run); own confirmation pending")
 for a, b in ((f"patch{k}.diff", f"patch{k}.diff"), (f"demo{k}.py", f"demo{k}.py")):
     shutil.copy(src / a, dst / b)
+try:
+    old = json.loads((dst / f"meta{k}.json").read_text())
+    if old.get("strengthened") and not meta.get("strengthened"):
+        meta["strengthened"] = old["strengthened"]
+except Exception:
+    pass
+if len(sys.argv) > 3:
+    meta["strengthened"] = sys.argv[3]
 (dst / f"meta{k}.json").write_text(json.dumps(meta, indent=1) + "\n")
 print(pid, k or "1", meta["caught_by"], "|", meta["caught_how"][:150])
